@@ -14,6 +14,7 @@ import (
 	"go/constant"
 	"go/token"
 	"go/types"
+	"reflect"
 	"sort"
 	"strings"
 
@@ -32,11 +33,17 @@ var fnWhitelist = map[string][]string{
 		"RevocationList.Revoke", "RevocationList.MaybeCompact", "RevocationList.ClearRevocation", "RevocationList.allRevoked", "RevocationList.IsRevoked",
 		"Header.Valid", "cleanSubject", "ClaimsData.Validate", "ClaimsData.IsSelfSigned",
 		"checkPermission", "Permission.Validate", "Permission.Empty",
+		"identifier.Kind", "identifier.Version",
+		"AccountClaims.isRevoked", "AccountClaims.IsClaimRevoked", "AccountClaims.RevokeAt", "AccountClaims.Revoke", "AccountClaims.ClearRevocation",
+		"Export.isRevoked", "Export.IsClaimRevoked", "Export.RevokeAt", "Export.Revoke", "Export.ClearRevocation",
+		"NatsLimits.IsUnlimited", "JetStreamLimits.IsUnlimited", "UserLimits.IsUnlimited", "Limits.IsUnlimited",
+		"WeightedMapping.GetWeight",
 	},
 	"V1": {
 		"Subject.HasWildCards", "Subject.IsContainedIn", "cleanSubject",
 		"StringList.Contains", "StringList.Add", "StringList.Remove",
 		"TagList.Contains", "TagList.Add", "TagList.Remove",
+		"Header.Valid",
 	},
 }
 
@@ -52,7 +59,8 @@ type fnInfo struct {
 	mutated  []bool       // per param: is it written through (pointer receiver / map) -> returned
 	results  []types.Type
 	usesNow  bool
-	retType  string // Lean type inside Option
+	retType  string                // Lean type inside Option
+	optPtr   map[types.Object]bool // pointer parameters compared with nil in the body: Option T
 }
 
 type fnGen struct {
@@ -66,15 +74,15 @@ type fnGen struct {
 }
 
 type fnCtx struct {
-	g       *fnGen
-	fi      *fnInfo
-	names   map[types.Object]string
-	taken   map[string]bool
-	loopN   int
-	aux     []string // auxiliary definitions (loop bodies), emitted before the function
-	inLoop  bool
-	state   []types.Object // loop-carried variables of the innermost loop being translated
-	tmpN    int
+	g        *fnGen
+	fi       *fnInfo
+	names    map[types.Object]string
+	taken    map[string]bool
+	loopN    int
+	aux      []string // auxiliary definitions (loop bodies), emitted before the function
+	inLoop   bool
+	state    []types.Object // loop-carried variables of the innermost loop being translated
+	tmpN     int
 	declared map[types.Object]bool // declared so far in the current def (for `let mut` vs `:=`)
 }
 
@@ -154,6 +162,47 @@ func (g *fnGen) zero(t types.Type) string {
 	}
 	unsup("zero value of %s", lt)
 	return ""
+}
+
+// nilCompared: pointer-to-struct parameters (not the receiver) that the body compares with nil
+func (g *fnGen) nilCompared(fd *ast.FuncDecl, params []*types.Var, hasRecv bool) map[types.Object]bool {
+	res := map[types.Object]bool{}
+	cand := map[types.Object]bool{}
+	for i, p := range params {
+		if hasRecv && i == 0 {
+			continue
+		}
+		if pt, ok := p.Type().Underlying().(*types.Pointer); ok {
+			if _, ok := pt.Elem().Underlying().(*types.Struct); ok {
+				cand[p] = true
+			}
+		}
+	}
+	ast.Inspect(fd.Body, func(n ast.Node) bool {
+		be, ok := n.(*ast.BinaryExpr)
+		if !ok || (be.Op != token.EQL && be.Op != token.NEQ) {
+			return true
+		}
+		for _, pair := range [][2]ast.Expr{{be.X, be.Y}, {be.Y, be.X}} {
+			if id, ok := pair[1].(*ast.Ident); ok && id.Name == "nil" {
+				if v, ok := pair[0].(*ast.Ident); ok {
+					if o := g.p.TypesInfo.Uses[v]; o != nil && cand[o] {
+						res[o] = true
+					}
+				}
+			}
+		}
+		return true
+	})
+	return res
+}
+
+func (c *fnCtx) paramType(p *types.Var) string {
+	lt := c.g.leanType(p.Type())
+	if c.fi.optPtr[p] {
+		return "(Option " + lt + ")"
+	}
+	return lt
 }
 
 func isErrorType(t types.Type) bool {
@@ -393,6 +442,9 @@ func (c *fnCtx) expr(e ast.Expr) ex {
 			if v.Parent() == c.g.p.Types.Scope() {
 				unsup("package-level variable %s", v.Name())
 			}
+			if c.fi.optPtr[o] {
+				return ex{c.nameOf(o), true} // dereferencing a nil pointer panics
+			}
 			return ex{c.nameOf(o), false}
 		}
 		unsup("identifier %s", x.Name)
@@ -422,10 +474,11 @@ func (c *fnCtx) expr(e ast.Expr) ex {
 		if sel, ok := c.g.p.TypesInfo.Selections[x]; ok && sel.Kind() == types.FieldVal {
 			a := c.expr(x.X)
 			c.g.leanType(sel.Recv())
+			path := c.fieldPath(sel)
 			if a.m {
-				return ex{"(do pure (" + a.bind() + ").f_" + x.Sel.Name + ")", true}
+				return ex{"(do pure (" + a.bind() + ")" + path + ")", true}
 			}
-			return ex{a.s + ".f_" + x.Sel.Name, false}
+			return ex{a.s + path, false}
 		}
 		unsup("selector %s", x.Sel.Name)
 	case *ast.IndexExpr:
@@ -475,6 +528,28 @@ func (c *fnCtx) expr(e ast.Expr) ex {
 	}
 	unsup("expression %T", e)
 	return ex{}
+}
+
+// fieldPath: `.f_A.f_B` for a (possibly promoted) field selection
+func (c *fnCtx) fieldPath(sel *types.Selection) string {
+	t := sel.Recv()
+	path := ""
+	for _, i := range sel.Index() {
+		if p, ok := t.Underlying().(*types.Pointer); ok {
+			t = p.Elem()
+		}
+		st, ok := t.Underlying().(*types.Struct)
+		if !ok {
+			unsup("field path through %s", t.String())
+		}
+		f := st.Field(i)
+		if _, isPtr := f.Type().Underlying().(*types.Pointer); isPtr && i != sel.Index()[len(sel.Index())-1] {
+			unsup("field path through pointer field %s", f.Name())
+		}
+		path += ".f_" + f.Name()
+		t = f.Type()
+	}
+	return path
 }
 
 func lower1(s string) string {
@@ -538,6 +613,24 @@ func (c *fnCtx) binary(x *ast.BinaryExpr) ex {
 		}
 		if other != nil {
 			t := c.typeOf(other)
+			if id, ok := other.(*ast.Ident); ok {
+				if o := c.g.p.TypesInfo.Uses[id]; o != nil && c.fi.optPtr[o] {
+					if x.Op == token.EQL {
+						return ex{c.nameOf(o) + ".isNone", false}
+					}
+					return ex{c.nameOf(o) + ".isSome", false}
+				}
+			}
+			if _, isMap := t.Underlying().(*types.Map); isMap {
+				a := c.expr(other)
+				if a.m {
+					unsup("partial map expression")
+				}
+				if x.Op == token.EQL {
+					return ex{"(" + a.s + ").isNone", false}
+				}
+				return ex{"(" + a.s + ").isSome", false}
+			}
 			if isErrorType(t) {
 				a := c.expr(other)
 				if a.m {
@@ -648,6 +741,10 @@ func (c *fnCtx) composite(x *ast.CompositeLit) ex {
 		lt := c.g.leanType(t)
 		return ex{"([" + strings.Join(parts, ", ") + "] : " + lt[1:len(lt)-1] + ")", false}
 	}
+	if _, ok := t.Underlying().(*types.Map); ok && len(x.Elts) == 0 {
+		lt := c.g.leanType(t)
+		return ex{"(some [] : " + lt[1:len(lt)-1] + ")", false}
+	}
 	unsup("composite literal of %s", t.String())
 	return ex{}
 }
@@ -723,6 +820,14 @@ func (c *fnCtx) call(x *ast.CallExpr) ex {
 		}
 		if qual == "fmt.Errorf" || qual == "errors.New" {
 			return ex{"true", false} // a non-nil error; message text is not modelled
+		}
+		if qual == "time.Unix" && len(x.Args) == 2 {
+			if z, ok := c.constExpr(x.Args[1]); ok && z == "(0 : Int)" {
+				return c.expr(x.Args[0])
+			}
+		}
+		if qual == "time.Now" && len(x.Args) == 0 {
+			return ex{"now", false}
 		}
 		if qual == "fmt.Sprintf" {
 			return ex{"([] : Str)", false} // message text is not modelled
@@ -902,7 +1007,26 @@ func (c *fnCtx) store(b *block, l ast.Expr, v string) {
 			if base.m {
 				unsup("partial base in field store")
 			}
-			c.store(b, x.X, "{ "+base.s+" with f_"+x.Sel.Name+" := "+v+" }")
+			// promoted fields: rebuild along the path
+			t := sel.Recv()
+			cur := base.s
+			var names []string
+			for _, i := range sel.Index() {
+				if p, ok := t.Underlying().(*types.Pointer); ok {
+					t = p.Elem()
+				}
+				f := t.Underlying().(*types.Struct).Field(i)
+				names = append(names, "f_"+f.Name())
+				t = f.Type()
+			}
+			var build func(obj string, k int) string
+			build = func(obj string, k int) string {
+				if k == len(names)-1 {
+					return "{ " + obj + " with " + names[k] + " := " + v + " }"
+				}
+				return "{ " + obj + " with " + names[k] + " := " + build(obj+"."+names[k], k+1) + " }"
+			}
+			c.store(b, x.X, build(cur, 0))
 			return
 		}
 		unsup("store to selector")
@@ -1415,10 +1539,13 @@ func (g *fnGen) prepare(fd *ast.FuncDecl, key string) (fi *fnInfo, err string) {
 	}
 	fi.usesNow = usesTimeNow(fd.Body)
 	fi.mutated = make([]bool, len(fi.params))
+	fi.optPtr = g.nilCompared(fd, fi.params, sig.Recv() != nil)
 	return fi, ""
 }
 
-func genFns(infos []pkgInfo) (string, map[string]string) {
+func genFns(infos []pkgInfo) (string, string, map[string]string) {
+	var ov strings.Builder
+	ov.WriteString("import JwtModel.Gen.Fn\nimport JwtModel.Validate\n/-! GENERATED by /verif/extract (gofn.go). Do not edit.\n\nReading the struct mirrors of `Gen/Fn.lean` out of model values (`Val`) through the JSON keys of the Go struct tags. -/\nnamespace Jwt.Gen.Fn\nopen Jwt Jwt.Codec Jwt.GoRt\n\ndef mapOfVal (v : Val) : GoMap Str Int :=\n  match v with\n  | .map m => some (m.map fun p => (p.1, p.2.asInt))\n  | _ => none\n\n")
 	var out strings.Builder
 	out.WriteString("import JwtModel.GoRt\n/-! GENERATED by /verif/extract (gofn.go) from /repo's working tree on every run. Do not edit.\n\n" +
 		"Statement-by-statement translations of a whitelisted set of Go functions into the `Option` monad\n(`none` = run-time panic); vocabulary: JwtModel/GoRt.lean. -/\nset_option linter.unusedVariables false\nnamespace Jwt.Gen.Fn\nopen Jwt Jwt.GoRt\n\n")
@@ -1499,9 +1626,14 @@ func genFns(infos []pkgInfo) (string, map[string]string) {
 				}
 				fmt.Fprintf(&out, "  f_%s : %s := %s\n", f.Name(), lt, z)
 			}
-			fmt.Fprintf(&out, "  deriving Inhabited\n\n")
+			fmt.Fprintf(&out, "  deriving Inhabited, DecidableEq\n\n")
 		}
 		out.WriteString(body.String())
+		ov.WriteString("namespace " + pi.short + "\n\n")
+		for _, n := range g.order {
+			ov.WriteString(g.ofVal(n))
+		}
+		ov.WriteString("end " + pi.short + "\n\n")
 		var us []string
 		for k, m := range g.unsupp {
 			us = append(us, k+": "+m)
@@ -1518,7 +1650,57 @@ func genFns(infos []pkgInfo) (string, map[string]string) {
 		out.WriteString("]\n\nend " + pi.short + "\n\n")
 	}
 	out.WriteString("end Jwt.Gen.Fn\n")
-	return out.String(), allUnsupp
+	ov.WriteString("end Jwt.Gen.Fn\n")
+	return out.String(), ov.String(), allUnsupp
+}
+
+// ofVal: `T_X.ofVal : Val → T_X`, reading every supported field through the JSON key of its struct tag
+func (g *fnGen) ofVal(name string) string {
+	st := g.structs[name]
+	var parts []string
+	for i := 0; i < st.NumFields(); i++ {
+		f := st.Field(i)
+		lt, _ := safeType(g, f.Type())
+		if lt == "" {
+			continue
+		}
+		tag := reflect.StructTag(st.Tag(i)).Get("json")
+		key := strings.Split(tag, ",")[0]
+		if key == "-" {
+			continue
+		}
+		src := ""
+		switch {
+		case key == "" && f.Embedded():
+			src = "v" // promoted fields: same JSON object
+		case key == "":
+			src = fmt.Sprintf("(v.field %q)", f.Name())
+		default:
+			src = fmt.Sprintf("(v.field %q)", key)
+		}
+		_, isPtr := f.Type().Underlying().(*types.Pointer)
+		var val string
+		switch {
+		case isPtr:
+			continue
+		case lt == "Str":
+			val = src + ".asStr"
+		case lt == "Int":
+			val = src + ".asInt"
+		case lt == "Bool":
+			val = src + ".asBool"
+		case lt == "(List Str)":
+			val = src + ".strs"
+		case lt == "(GoMap Str Int)":
+			val = "mapOfVal " + src
+		case strings.HasPrefix(lt, "T_"):
+			val = lt + ".ofVal " + src
+		default:
+			continue
+		}
+		parts = append(parts, "f_"+f.Name()+" := "+val)
+	}
+	return fmt.Sprintf("def T_%s.ofVal (v : Val) : T_%s :=\n  { %s }\n\n", name, name, strings.Join(parts, ",\n    "))
 }
 
 // safeType: Lean type and default of a struct field; fields of types outside the subset are dropped from the mirror
@@ -1621,7 +1803,7 @@ func (g *fnGen) emit(fi *fnInfo, emitted map[string]bool) (text string, err stri
 	b := &block{ind: 1}
 	for _, p := range fi.params {
 		n := c.nameOf(p)
-		lt := g.leanType(p.Type())
+		lt := c.paramType(p)
 		params = append(params, fmt.Sprintf("(%s : %s)", n, lt))
 		c.declared[p] = true
 		if w[p] {
